@@ -123,6 +123,9 @@ def run(chk):
         "base_has_the_mode_attribute": "uppercase A 17\nlowercase a 1\nbase uppercase a A\n",
         "base_chain_back_to_start": "lowercase p 1234\nlowercase q 12345\nlowercase r 1235\nbase uppercase p q\nbase uppercase q r\nbase uppercase r p\n",
     }
+    # faults that only the DISPLAY part of the compilation rejects (a compilation of the translation part alone passes over them)
+    fin.update({"display_two_cells": "display a 1-2\n", "display_no_dots": "display a\n", "display_bad_dots": "display a 1x\n",
+                "grouping_display_half": "grouping gg ab 1\n"})
     for bname, text in bases[:2] + [("minimal", "space \\s 0\nletter a 1\nletter b 12\n")]:
         for fname, extra in fin.items():
             variants.append(("%s:finalize:%s" % (bname, fname), (text.rstrip("\n") + "\n" + extra).encode("latin-1", "replace")))
@@ -136,11 +139,13 @@ def run(chk):
                 data = data.replace(b"SELF", p.name.encode())
             p.write_bytes(data)
             # ... and a table that is only ever extended (never finalised) takes a valid include at run time afterwards
-            lines += [goodcase, "V %s" % p, "V %s" % p, "K %s | include %s" % (good2, inc), goodcase]
+            # ... and after the translation part alone was compiled by another entry point (lou_getEmphClasses) the verdict on
+            # the whole list is still the same
+            lines += [goodcase, "V %s" % p, "V %s" % p, "K %s | include %s" % (good2, inc), goodcase, "E %s" % p, "V %s" % p]
         outs = common.run_stream(exe, ["e 1"], lines, env=env, timeout=240)
         ref = None
         for j, (key, data) in enumerate(chunk):
-            o = outs[5 * j:5 * j + 5]
+            o = outs[7 * j:7 * j + 7]
             chk.count(key, nontrivial=True)
             kp = key.split(":")
             chk.tally("fault_" + (kp[2] if len(kp) > 2 and kp[1].startswith("line") else kp[1] if len(kp) > 1 else "special"))
@@ -152,7 +157,7 @@ def run(chk):
                 m = re.search(r" at (\w+) (\S+)$", crash[0][1])
                 chk.violation("compile-%s:%s" % (kind, m.group(1) if m else "?"), "compiling a corrupted table: %s (%s)" % (crash[0][1][:200], key), replay)
                 continue
-            g1, v1, v2, k1, g2 = o
+            g1, v1, v2, k1, g2, e1, v3 = o
             f = lambda v: dict(x.split("=") for x in v.split()[2:])
             ret1, ret2 = int(v1.split()[1]), int(v2.split()[1])
             e1, e2 = int(f(v1)["errors"]) + int(f(v1)["fatal"]), int(f(v2)["errors"]) + int(f(v2)["fatal"])
@@ -163,9 +168,12 @@ def run(chk):
                 chk.violation("silent-failure", "compilation failed without an error-level message (%s)" % key, replay)
             elif ret1 != ret2 or (ret2 == 0 and e2 == 0):
                 chk.violation("outcome-not-pure", "compiling the same files twice gives %d then %d (errors %d, %d): %s" % (ret1, ret2, e1, e2, key), replay)
+            elif int(v3.split()[1]) != ret1 or (ret1 == 0 and int(f(v3)["errors"]) + int(f(v3)["fatal"]) == 0):
+                chk.violation("outcome-not-pure", "lou_checkTable gives %d first and %s after lou_getEmphClasses had compiled the translation part alone (%s)"
+                              % (ret1, v3.strip(), key), dict(replay, commands=lines[7 * j:7 * j + 7]))
             elif k1.strip() != "K 1":
                 chk.violation("later-compilation-disturbed", "a valid include added at run time to another, loaded table is answered with '%s' after the "
-                              "failed/odd compilation (%s)" % (k1.strip(), key), dict(replay, commands=lines[5 * j:5 * j + 5]))
+                              "failed/odd compilation (%s)" % (k1.strip(), key), dict(replay, commands=lines[7 * j:7 * j + 7]))
             elif sig(g1) != sig(g2) or (ref is not None and sig(g1) != ref):
                 chk.violation("good-table-disturbed", "a table loaded before behaves differently after a failed/odd compilation (%s)" % key, replay)
             else:
